@@ -7,13 +7,16 @@
 # allocation oracle of the generated runs decides whether any operation actually allocates).
 set -u
 W="$VERIF_DIR/work/nostd-probe"; mkdir -p "$W"
+# the tree under test is the one the harness is built against (/repo; a scratch copy when the
+# whole of /verif runs against a scratch copy)
+REPO=$(sed -n 's/^micromap *= *{ *path *= *"\([^"]*\)".*/\1/p' "$VERIF_DIR/harness/base/Cargo.toml" | head -n 1); REPO=${REPO:-/repo}
 LOG="$W/probe.log"; : > "$LOG"
 bad=0
 for prof in release dev; do
 for feat in "" "serde"; do
   T="$W/t-${feat:-default}"
   pf="--release"; pd="release"; [ "$prof" = "dev" ] && { pf=""; pd="debug"; }
-  if ! ( cd /repo && CARGO_NET_OFFLINE=true cargo +nightly build --offline --lib $pf ${feat:+--features $feat} --target-dir "$T" ) >>"$LOG" 2>&1; then
+  if ! ( cd "$REPO" && CARGO_NET_OFFLINE=true cargo +nightly build --offline --lib $pf ${feat:+--features $feat} --target-dir "$T" ) >>"$LOG" 2>&1; then
     echo "INCONCLUSIVE: the library does not build with nightly for the no_std probe (see $LOG)"; tail -n 15 "$LOG"; exit 2
   fi
   deps=$(rustc +nightly -Zls=root "$T/$pd/libmicromap.rlib" 2>>"$LOG" | sed -n '/External Dependencies/,/^$/p' | awk 'NR>1 && NF {print $2}' | sed 's/-[0-9a-f]*$//' | tr '\n' ' ')
